@@ -59,6 +59,9 @@ THEOREMS = [
     "Nix.C17.C17_last_flush_wins",
     "Nix.C17.C17_late_writes_bounded",
     "Nix.C17.C17_chain_reopen_open",
+    "Nix.C17.C17_multi_flush_durable",
+    "Nix.C17.C17_multi_close_durable",
+    "Nix.C17.C17_multi_unflushed_loses",
 ]
 ASSUMPTIONS = [
     "libhdf5's H5Fflush and the operating system honour the flush: in the model `h5flush` IS `disk := cache`; "
@@ -66,7 +69,9 @@ ASSUMPTIONS = [
     "only; SIGKILL keeps the OS page cache, power loss is outside the property)",
     "h5py File.close is given no durability of its own in the model (weaker than real libhdf5), so the theorem "
     "for close() rests on the flush inside File.close",
-    "one writer process at a time; a second open of the same file inside one process is outside the model",
+    "one writer process at a time; several File objects on the path inside that process share ONE library file "
+    "structure and cache (libhdf5 hands a second H5Fopen the file it already holds; Pure/FlushMulti.lean): H5Fflush "
+    "through any of them writes that cache - exercised by the two-object writer chains, not proved",
     "a store is a map object-path -> canonical record (container order lives in the parent's record); the "
     "model is fed the difference between consecutive flush-point walks recorded by the child itself",
     "Python's `with` statement calls __exit__ on every way out of the block (language semantics, trusted)",
